@@ -35,6 +35,7 @@ type caseT struct {
 	sms   stakingtypes.MsgServer
 	rms   restaketypes.MsgServer
 	undel map[[2]int]int
+	huge  bool // balances (hence stakes, powers, locks) around 2^63
 }
 
 func (c *caseT) delegTokens(a, v int) sdkmath.Int {
@@ -98,45 +99,45 @@ func (c *caseT) emit(m fx.M, errS string) {
 	c.tr.Op(m)
 }
 
-func (c *caseT) totalPower(a int) int64 {
+func (c *caseT) totalPower(a int) sdkmath.Int {
 	p, err := c.app.RestakeKeeper.GetTotalPower(c.ctx, c.accts[a].Address)
 	fx.Must(err)
-	return p.Int64()
+	return p
 }
 
-func (c *caseT) maxLock(a int) int64 {
-	m := int64(0)
+func (c *caseT) maxLock(a int) sdkmath.Int {
+	m := sdkmath.ZeroInt()
 	for _, l := range c.app.RestakeKeeper.GetLocksByAddress(c.ctx, c.accts[a].Address) {
-		if c.app.RestakeKeeper.IsActiveVault(c.ctx, l.Key) && l.Power.Int64() > m {
-			m = l.Power.Int64()
+		if c.app.RestakeKeeper.IsActiveVault(c.ctx, l.Key) && l.Power.GT(m) {
+			m = l.Power
 		}
 	}
 	return m
 }
 
 // amount for a power-reducing op: exactly down to the lock, one below, everything, or random
-func (c *caseT) reduceAmt(a int, have int64) int64 {
-	if have <= 0 {
-		return 0
+func (c *caseT) reduceAmt(a int, have sdkmath.Int) sdkmath.Int {
+	if !have.IsPositive() {
+		return sdkmath.ZeroInt()
 	}
-	slack := c.totalPower(a) - c.maxLock(a)
-	var amt int64
+	slack := c.totalPower(a).Sub(c.maxLock(a))
+	var amt sdkmath.Int
 	switch c.r.Intn(5) {
 	case 0:
 		amt = slack
 	case 1:
-		amt = slack + 1
+		amt = slack.AddRaw(1)
 	case 2:
 		amt = have
 	case 3:
-		amt = 1
+		amt = sdkmath.OneInt()
 	default:
-		amt = 1 + int64(c.r.U64()%uint64(have))
+		amt = sdkmath.NewIntFromUint64(c.r.U64()).Mod(have).AddRaw(1)
 	}
-	if amt < 1 {
-		amt = 1
+	if amt.LT(sdkmath.OneInt()) {
+		amt = sdkmath.OneInt()
 	}
-	if amt > have {
+	if amt.GT(have) {
 		amt = have
 	}
 	return amt
@@ -150,27 +151,30 @@ func (c *caseT) op() {
 	switch x := r.Intn(20); {
 	case x < 3: // stake
 		d := denoms[r.Intn(len(denoms))]
-		bal := c.app.BankKeeper.GetBalance(c.ctx, acc.Address, d).Amount.Int64()
-		amt := int64(r.PickInt(1, 5, 100, 1000))
+		bal := c.app.BankKeeper.GetBalance(c.ctx, acc.Address, d).Amount
+		amt := sdkmath.NewInt(int64(r.PickInt(1, 5, 100, 1000)))
 		if r.Chance(1, 10) {
-			amt = bal + 1
+			amt = bal.AddRaw(1)
 		}
-		msg := &restaketypes.MsgStake{StakerAddress: acc.Address.String(), Coins: sdk.NewCoins(sdk.NewInt64Coin(d, amt))}
+		if c.huge && r.Chance(1, 2) && bal.GT(sdkmath.NewInt(2000)) {
+			amt = bal.SubRaw(int64(r.PickInt(0, 1, 10, 1000))) // (nearly) everything: powers around 2^63
+		}
+		msg := &restaketypes.MsgStake{StakerAddress: acc.Address.String(), Coins: sdk.NewCoins(sdk.NewCoin(d, amt))}
 		e := fx.Atomically(c.ctx, func(ctx sdk.Context) error { _, err := c.rms.Stake(ctx, msg); return err })
-		c.emit(fx.M{"op": "stake", "acct": a, "denom": d, "amt": amt}, e)
+		c.emit(fx.M{"op": "stake", "acct": a, "denom": d, "amt": json.Number(amt.String())}, e)
 	case x < 6: // unstake
 		d := denoms[r.Intn(len(denoms))]
-		have := rk.GetStake(c.ctx, acc.Address).Coins.AmountOf(d).Int64()
+		have := rk.GetStake(c.ctx, acc.Address).Coins.AmountOf(d)
 		amt := c.reduceAmt(a, have)
 		if r.Chance(1, 10) {
-			amt = have + 1
+			amt = have.AddRaw(1)
 		}
-		if amt == 0 {
+		if amt.IsZero() {
 			return
 		}
-		msg := &restaketypes.MsgUnstake{StakerAddress: acc.Address.String(), Coins: sdk.NewCoins(sdk.NewInt64Coin(d, amt))}
+		msg := &restaketypes.MsgUnstake{StakerAddress: acc.Address.String(), Coins: sdk.NewCoins(sdk.NewCoin(d, amt))}
 		e := fx.Atomically(c.ctx, func(ctx sdk.Context) error { _, err := c.rms.Unstake(ctx, msg); return err })
-		c.emit(fx.M{"op": "unstake", "acct": a, "denom": d, "amt": amt}, e)
+		c.emit(fx.M{"op": "unstake", "acct": a, "denom": d, "amt": json.Number(amt.String())}, e)
 	case x < 9: // delegate
 		v := r.Intn(len(bandtesting.Validators))
 		amt := int64(r.PickInt(1, 5, 100, 1000))
@@ -179,8 +183,7 @@ func (c *caseT) op() {
 		c.emit(fx.M{"op": "delegate", "acct": a, "val": v, "amt": amt}, e)
 	case x < 12: // undelegate
 		v := r.Intn(len(bandtesting.Validators))
-		have := c.delegTokens(a, v).Int64()
-		amt := c.reduceAmt(a, have)
+		amt := c.reduceAmt(a, c.delegTokens(a, v)).Int64()
 		if amt == 0 || c.undel[[2]int{a, v}] >= 6 {
 			return
 		}
@@ -193,8 +196,7 @@ func (c *caseT) op() {
 	case x < 14: // redelegate
 		src := r.Intn(len(bandtesting.Validators))
 		dst := (src + 1 + r.Intn(len(bandtesting.Validators)-1)) % len(bandtesting.Validators)
-		have := c.delegTokens(a, src).Int64()
-		amt := c.reduceAmt(a, have)
+		amt := c.reduceAmt(a, c.delegTokens(a, src)).Int64()
 		if amt == 0 {
 			return
 		}
@@ -208,9 +210,9 @@ func (c *caseT) op() {
 		var p sdkmath.Int
 		switch r.Intn(8) {
 		case 0:
-			p = sdkmath.NewInt(tp)
+			p = tp
 		case 1:
-			p = sdkmath.NewInt(tp + 1)
+			p = tp.AddRaw(1)
 		case 2:
 			p = sdkmath.ZeroInt()
 		case 3:
@@ -218,13 +220,13 @@ func (c *caseT) op() {
 		case 4:
 			p = sdkmath.NewIntFromUint64(1 << 63).MulRaw(2) // 2^64
 		case 5:
-			if tp > 0 {
-				p = sdkmath.NewInt(tp - 1)
+			if tp.IsPositive() {
+				p = tp.SubRaw(1)
 			} else {
 				p = sdkmath.ZeroInt()
 			}
 		default:
-			p = sdkmath.NewInt(int64(r.U64() % uint64(tp+2)))
+			p = sdkmath.NewIntFromUint64(r.U64()).Mod(tp.AddRaw(2))
 		}
 		e := fx.Atomically(c.ctx, func(ctx sdk.Context) error { return rk.SetLockedPower(ctx, acc.Address, k, p) })
 		c.emit(fx.M{"op": "setLock", "acct": a, "vault": k, "power": json.Number(p.String())}, e)
@@ -257,6 +259,10 @@ func runCase(app *fx.App, tr *fx.Trace, r *fx.Rng) {
 			fx.Must(app.StakingKeeper.SetDelegation(ctx, d))
 		}
 	}
+	c.huge = r.Chance(1, 5)
+	if c.huge {
+		tr.Tag("powers-around-2^63")
+	}
 	allowed := [][]string{{"uband", "ustk"}, {"uband"}, {"ustk"}}[r.Intn(3)]
 	fx.Must(app.RestakeKeeper.SetParams(ctx, restaketypes.Params{AllowedDenoms: allowed}))
 	for _, a := range c.accts {
@@ -266,7 +272,11 @@ func runCase(app *fx.App, tr *fx.Trace, r *fx.Rng) {
 			if bal.Amount.IsPositive() {
 				fx.Must(app.BankKeeper.SendCoinsFromAccountToModule(ctx, a.Address, authtypes.FeeCollectorName, sdk.NewCoins(bal)))
 			}
-			app.Fund(ctx, a.Address, d, sdkmath.NewInt(int64(r.PickInt(50, 5000, 100000))))
+			amt := sdkmath.NewInt(int64(r.PickInt(50, 5000, 100000)))
+			if c.huge && d != "uband" {
+				amt = sdkmath.NewIntFromUint64(1 << 63).AddRaw(int64(r.PickInt(-1000, 5, 100000))) // powers around 2^63
+			}
+			app.Fund(ctx, a.Address, d, amt)
 		}
 	}
 	var deleg, bal [][]any
